@@ -122,12 +122,12 @@ def tree_model(draw, min_tokens=1, max_tokens=8, disc=0.5, unary=True, words=pla
     return {"sid": draw(sid), "root": root}
 
 
-def corpus(tree, min_size=1, max_size=4, distinct_sids=True):
+def corpus(tree, min_size=1, max_size=4, distinct_sids=True, max_start=50):
     @st.composite
     def build(draw):
         trees = draw(st.lists(tree, min_size=min_size, max_size=max_size))
         if distinct_sids:
-            start = draw(st.integers(1, 50))
+            start = draw(st.integers(1, max_start))
             sid = start
             for tr in trees:
                 tr["sid"] = sid
